@@ -81,10 +81,19 @@ impl Default for Cfg {
 	}
 }
 
+/// Subscription ids: a counter, unless the history has queued an id to hand out next (an id provider is free to
+/// give an id again once the subscription that had it is over, or on another connection)
 #[derive(Debug)]
-pub struct CounterIds(pub AtomicU64, pub bool);
+pub struct CounterIds(pub AtomicU64, pub bool, pub Arc<Mutex<std::collections::VecDeque<Value>>>);
 impl IdProvider for CounterIds {
 	fn next_id(&self) -> SubscriptionId<'static> {
+		if let Some(v) = self.2.lock().pop_front() {
+			match v {
+				Value::String(s) => return SubscriptionId::Str(s.into()),
+				Value::Number(n) if n.is_u64() => return SubscriptionId::Num(n.as_u64().unwrap()),
+				_ => {}
+			}
+		}
 		let n = self.0.fetch_add(1, Ordering::SeqCst);
 		if self.1 { SubscriptionId::Str(format!("sub-{n}").into()) } else { SubscriptionId::Num(n) }
 	}
@@ -513,18 +522,24 @@ pub struct Fixture {
 	pub cfg: Cfg,
 	pub server_cfg: ServerConfig,
 	pub lowlevel_conn_ids: AtomicU64,
+	/// ids the id provider hands out next (front first) instead of counting
+	pub forced_ids: Arc<Mutex<std::collections::VecDeque<Value>>>,
 }
 
 pub type Svc = jsonrpsee_server::TowerService<Identity, Identity>;
 
 pub fn server_config(cfg: &Cfg, string_ids: bool) -> ServerConfig {
+	server_config_with_ids(cfg, string_ids, Default::default())
+}
+
+pub fn server_config_with_ids(cfg: &Cfg, string_ids: bool, forced: Arc<Mutex<std::collections::VecDeque<Value>>>) -> ServerConfig {
 	let mut b = ServerConfig::builder()
 		.max_request_body_size(cfg.max_request)
 		.max_response_body_size(cfg.max_response)
 		.max_connections(cfg.max_connections)
 		.max_subscriptions_per_connection(cfg.max_subs)
 		.set_message_buffer_capacity(cfg.buffer_capacity.max(1))
-		.set_id_provider(CounterIds(AtomicU64::new(1000), string_ids))
+		.set_id_provider(CounterIds(AtomicU64::new(1000), string_ids, forced))
 		.set_batch_request_config(match cfg.batch {
 			BatchCfg::Disabled => BatchRequestConfig::Disabled,
 			BatchCfg::Limit(n) => BatchRequestConfig::Limit(n),
@@ -552,10 +567,11 @@ impl Fixture {
 		let ctx = Arc::new(HCtx { log: Mutex::new(vec![]), gates: Gates::default(), actors: Mutex::new(vec![]), guard_seen: Mutex::new(vec![]) });
 		let module = build_module(ctx.clone());
 		let methods: Methods = module.into();
-		let server_cfg = server_config(&cfg, string_ids);
+		let forced_ids: Arc<Mutex<std::collections::VecDeque<Value>>> = Default::default();
+		let server_cfg = server_config_with_ids(&cfg, string_ids, forced_ids.clone());
 		let builder = jsonrpsee_server::Server::builder().set_config(server_cfg.clone()).to_service_builder();
 		let (stop, handle) = stop_channel();
-		Fixture { ctx, methods, builder, stop, handle, cfg, server_cfg, lowlevel_conn_ids: AtomicU64::new(0) }
+		Fixture { ctx, methods, builder, stop, handle, cfg, server_cfg, lowlevel_conn_ids: AtomicU64::new(0), forced_ids }
 	}
 
 	pub fn service(&self) -> Svc {
